@@ -36,7 +36,7 @@ ERRNOS = {
     "ENOTDIR": _errno.ENOTDIR,
 }
 
-DEFAULT_STEP_BUDGET = 10_000_000
+DEFAULT_STEP_BUDGET = 2_000_000
 DEFAULT_EVENT_CAP = 100_000
 
 # Git outcomes the tool is expected to survive (status 0, valid header) ...
